@@ -116,6 +116,8 @@ def sp_dval(ex, e, st):
     txt = getattr(s, "const", None)
     if txt is not None and txt.isdigit():
         return iv(int(txt))
+    if getattr(s, "intval", None) is not None:
+        return s.intval
     return specz3.seq_pv(s, iv(0), s.n, iv(10))
 
 
@@ -279,6 +281,135 @@ def sp_is_dna(ex, e, st):
     return s.forall(lambda v: z3.Or(v == 65, v == 67, v == 71, v == 84), lo, hi)
 
 
+# ------------------------------------------------------------------ coding graph / digit map (C05, C18)
+def _mat(v):
+    if not isinstance(v, Mat):
+        from pyvc.engine import Unsupported
+        raise Unsupported(f"contract expression expects a 2-D array, the code now has {v!r} there (sidecar no longer binds)")
+    return v
+
+
+def row_live(acc, v):
+    return [acc.at(v, j) >= 0 for j in range(4)]
+
+
+def row_deg(acc, v):
+    tot = None
+    for c in row_live(acc, v):
+        t = z3.If(c, iv(1), iv(0))
+        tot = t if tot is None else tot + t
+    return tot
+
+
+def row_rank(acc, shuf, v, j):
+    """rank of live column j among the live columns of row v (key: column number, or the table entry of the column)."""
+    live = row_live(acc, v)
+    key = (lambda c: iv(c)) if isinstance(shuf, NoneV) else (lambda c: shuf.at(v, c))
+    tot = iv(0)
+    for c in range(4):
+        if c != j:
+            tot = tot + z3.If(z3.And(live[c], key(c) < key(j)), iv(1), iv(0))
+    return tot
+
+
+def row_arc(acc, shuf, v, d):
+    """the live column whose rank is d (A<C<G<T order, or the order of the table entries)."""
+    live = row_live(acc, v)
+    out = iv(3)
+    for j in (2, 1, 0):
+        out = z3.If(z3.And(live[j], row_rank(acc, shuf, v, j) == d), iv(j), out)
+    return out
+
+
+def sp_deg(ex, e, st):
+    return row_deg(_mat(ex.ev(e.args[0], st)), _int(ex.ev(e.args[1], st)))
+
+
+def sp_arc_of_digit(ex, e, st):
+    return row_arc(_mat(ex.ev(e.args[0], st)), ex.ev(e.args[1], st), _int(ex.ev(e.args[2], st)), _int(ex.ev(e.args[3], st)))
+
+
+def sp_digit_of_arc(ex, e, st):
+    acc, shuf, v = _mat(ex.ev(e.args[0], st)), ex.ev(e.args[1], st), _int(ex.ev(e.args[2], st))
+    j = _int(ex.ev(e.args[3], st))
+    out = row_rank(acc, shuf, v, 3)
+    for c in (2, 1, 0):
+        out = z3.If(j == c, row_rank(acc, shuf, v, c), out)
+    return out
+
+
+def sp_is_accessor(ex, e, st):
+    acc, k = _mat(ex.ev(e.args[0], st)), _int(ex.ev(e.args[1], st))
+    v = fresh("v")
+    q = sp_ipow_val(4, k - 1)
+    body = z3.And(*[z3.Or(acc.at(v, j) == -1, acc.at(v, j) == (v % q) * 4 + j) for j in range(4)])
+    return z3.And(acc.rows == sp_ipow_val(4, k), acc.cols == 4, z3.ForAll([v], z3.Implies(z3.And(0 <= v, v < acc.rows), body), patterns=[acc.arr2[v]]))
+
+
+def sp_is_table(ex, e, st):
+    t, k = ex.ev(e.args[0], st), _int(ex.ev(e.args[1], st))
+    if isinstance(t, NoneV):
+        return z3.BoolVal(True)
+    t = _mat(t)
+    v = fresh("v")
+    ent = [t.at(v, j) for j in range(4)]
+    body = z3.And(*[z3.And(x >= 0, x <= 3) for x in ent], z3.Distinct(*ent))
+    return z3.And(t.rows == sp_ipow_val(4, k), t.cols == 4, z3.ForAll([v], z3.Implies(z3.And(0 <= v, v < t.rows), body), patterns=[t.arr2[v]]))
+
+
+def sp_walkv(ex, e, st):
+    """walkv(acc, s, start, p): vertex after the first p characters of s from start, -1 once the prefix stops being a walk."""
+    acc, s = _mat(ex.ev(e.args[0], st)), _seq(ex.ev(e.args[1], st))
+    if s.delta != 0:
+        from pyvc.engine import Unsupported
+        raise Unsupported("walk over a shifted string view")
+    return specz3.walkv(acc.arr2, s.arr, s.start, _int(ex.ev(e.args[2], st)), _int(ex.ev(e.args[3], st)))
+
+
+def sp_enc_step(ex, e, st):
+    """enc_step(acc, shuffles, gq, vtx, s, p): position p of strand s follows the published scheme: at vertex vtx[p] with out-degree d,
+    d > 1: digit gq[p] % d selects the arc, gq[p+1] = gq[p] // d;  d == 1: the only arc, gq unchanged;  and gq[p] > 0."""
+    acc, shuf = _mat(ex.ev(e.args[0], st)), ex.ev(e.args[1], st)
+    gq, vtx, s = _seq(ex.ev(e.args[2], st)), _seq(ex.ev(e.args[3], st)), _seq(ex.ev(e.args[4], st))
+    p = _int(ex.ev(e.args[5], st))
+    v = vtx.at(p)
+    d = row_deg(acc, v)
+    digit = gq.at(p) % z3.If(d >= 1, d, iv(1))
+    col = z3.If(d > 1, row_arc(acc, shuf, v, digit), row_arc(acc, NONE, v, iv(0)))
+    nuc = z3.If(col == 0, iv(65), z3.If(col == 1, iv(67), z3.If(col == 2, iv(71), iv(84))))
+    return z3.And(0 <= v, v < acc.rows, d >= 1, gq.at(p) > 0,
+                  z3.If(d > 1, gq.at(p + 1) == gq.at(p) / z3.If(d >= 1, d, iv(1)), gq.at(p + 1) == gq.at(p)),
+                  s.at(p) == nuc, vtx.at(p + 1) == acc.arr2[v][col], acc.arr2[v][col] >= 0)
+
+
+def sp_wt(ex, e, st):
+    dg = _seq(ex.ev(e.args[0], st))
+    return specz3.wtf(dg.arr, add(dg.start, _int(ex.ev(e.args[1], st))), add(dg.start, _int(ex.ev(e.args[2], st))))
+
+
+def sp_lv(ex, e, st):
+    dg, dd = _seq(ex.ev(e.args[0], st)), _seq(ex.ev(e.args[1], st))
+    if lit(dg.start) != 0 or lit(dd.start) != 0:
+        from pyvc.engine import Unsupported
+        raise Unsupported("mixed-radix value over shifted ghost arrays")
+    return specz3.lvf(dg.arr, dd.arr, _int(ex.ev(e.args[2], st)), _int(ex.ev(e.args[3], st)))
+
+
+def sp_hv(ex, e, st):
+    dg, dd = _seq(ex.ev(e.args[0], st)), _seq(ex.ev(e.args[1], st))
+    if lit(dg.start) != 0 or lit(dd.start) != 0:
+        from pyvc.engine import Unsupported
+        raise Unsupported("mixed-radix value over shifted ghost arrays")
+    return specz3.hvf(dg.arr, dd.arr, _int(ex.ev(e.args[2], st)), _int(ex.ev(e.args[3], st)))
+
+
+HERE = z3.Function("here", z3.IntSort(), z3.BoolSort())      # instantiation marker: mark(t) in ghost code assumes here(t)
+
+
+def sp_here(ex, e, st):
+    return HERE(_int(ex.ev(e.args[0], st)))
+
+
 def sp_ascents(ex, e, st):
     """ascents(s[, upto]): sum of the 0-based positions p < upto (default len(s) - 1) where nucleotide p is followed by a larger one."""
     s = codes_seq(ex, _seq(ex.ev(e.args[0], st)))
@@ -323,5 +454,6 @@ def sp_accepts(ex, e, st):
 SPEC = {
     "forall": sp_forall, "exists": lambda ex, e, st: sp_forall(ex, e, st, exists=True), "implies": sp_implies, "old": sp_old,
     "digits": sp_digits, "val": sp_val, "dval": sp_dval, "val2": sp_val2, "canon": sp_canon, "ipow": sp_ipow, "dig": sp_dig,
-    "same": sp_same_seq, "upd": sp_upd, "accepts": sp_accepts, "ascents": sp_ascents, "nsucc": sp_nsucc, "rsum": sp_rsum, "code": sp_code, "dnav": sp_dnav, "codes": sp_codes, "is_dna": sp_is_dna, "pv": sp_pv, "store": sp_store, "A": sp_A, "D": sp_D, "P": sp_P, "seq_is": sp_seq_is, "seq_is_cons": sp_seq_is_cons, "ite": sp_ite, "isnone": sp_isnone, "cnt": sp_cnt, "ssum": sp_ssum,
+    "same": sp_same_seq, "upd": sp_upd, "accepts": sp_accepts, "here": sp_here, "deg": sp_deg, "arc_of_digit": sp_arc_of_digit, "digit_of_arc": sp_digit_of_arc, "is_accessor": sp_is_accessor,
+    "is_table": sp_is_table, "walkv": sp_walkv, "enc_step": sp_enc_step, "wt": sp_wt, "lv": sp_lv, "hv": sp_hv, "ascents": sp_ascents, "nsucc": sp_nsucc, "rsum": sp_rsum, "code": sp_code, "dnav": sp_dnav, "codes": sp_codes, "is_dna": sp_is_dna, "pv": sp_pv, "store": sp_store, "A": sp_A, "D": sp_D, "P": sp_P, "seq_is": sp_seq_is, "seq_is_cons": sp_seq_is_cons, "ite": sp_ite, "isnone": sp_isnone, "cnt": sp_cnt, "ssum": sp_ssum,
 }
